@@ -168,6 +168,28 @@ func init() {
 		}
 		return fmtOutcome(B) + " " + accStr(B)
 	}
+	// cfgreuse: a Config value taken from an existing game (Position.Config()) and edited - other size, piece counts,
+	// tie-break flag - is a configuration like any other: the position built from it is judged by ITS size
+	opTable["cfgreuse"] = func(s *Session, a []string) string {
+		src, b := decPos(a[0]), decPos(a[1])
+		cfg := src.Config()
+		bc := b.Config()
+		cfg.Size, cfg.Pieces, cfg.Capstones, cfg.BlackWinsTies = bc.Size, bc.Pieces, bc.Capstones, bc.BlackWinsTies
+		n := b.Size()
+		board := make([][]tak.Square, n)
+		for y := 0; y < n; y++ {
+			board[y] = make([]tak.Square, n)
+			for x := 0; x < n; x++ {
+				board[y][x] = b.At(x, y)
+			}
+		}
+		q, err := tak.FromSquares(cfg, board, b.MoveNumber())
+		if err != nil {
+			return "err"
+		}
+		fresh := tak.New(cfg)
+		return fmtOutcome(q) + " " + accStr(q) + " new=" + strconv.Itoa(fresh.Size()) + "," + strconv.Itoa(fresh.WhiteStones())
+	}
 	// evalmm: the exported method MinimaxAI.Evaluate on ONE engine per board size that is kept for the whole run (default
 	// configuration, transposition table on), so that whatever the engine remembers between calls meets positions of
 	// other games, other piece counts and other tie-break settings
